@@ -84,6 +84,84 @@ fn main() {
     let mut evals = 0u64;
     let mut log = std::io::BufWriter::new(std::fs::File::create(if case.is_some() { "/dev/null".to_string() } else { format!("{}.c11n", out) }).expect("log file"));
     std::panic::set_hook(Box::new(|_| {}));
+    if args.get(1).map(|s| s.as_str()) == Some("c20") {
+        // TimeZone handles as values in a build without std: every kind of handle that exists there (UTC, fixed,
+        // POSIX, TZif from bytes) is created, cloned, queried through its clones, compared and dropped in seeded order
+        let tzif: Vec<(String, Vec<u8>)> = ["America/New_York", "Europe/Dublin", "Australia/Lord_Howe", "Africa/Casablanca", "Asia/Kathmandu"]
+            .iter()
+            .filter_map(|n| std::fs::read(format!("/usr/share/zoneinfo/{}", n)).ok().map(|b| (n.to_string(), b)))
+            .collect();
+        let posix = ["EST5EDT,M3.2.0,M11.1.0", "CET-1CEST,M3.5.0,M10.5.0/3", "<+1030>-10:30<+11>-11,M10.1.0,M4.1.0", "UTC0", "IST-1GMT0,M10.5.0,M3.5.0/1", "<-03>3<-02>,M3.5.0/-2,M10.5.0/-1", "EST5"];
+        for i in 0..n {
+            let mut slots: Vec<(u64, TimeZone)> = Vec::new();
+            let mut line = format!("{}", i);
+            for _ in 0..r.range(4, 24) {
+                match r.below(6) {
+                    0 | 1 => {
+                        let k = r.below(4);
+                        let (tag, tz) = match k {
+                            0 => (r.below(7), TimeZone::posix(posix[r.below(7) as usize]).ok()),
+                            1 => {
+                                let o = r.range(-93_599, 93_599) as i32;
+                                (100 + (o as i64 + 100_000) as u64, jiff::tz::Offset::from_seconds(o).ok().map(TimeZone::fixed))
+                            }
+                            2 => (99, Some(TimeZone::UTC)),
+                            _ if !tzif.is_empty() => {
+                                let j = r.below(tzif.len() as u64) as usize;
+                                (1_000_000 + j as u64, TimeZone::tzif(&tzif[j].0, &tzif[j].1).ok())
+                            }
+                            _ => (99, Some(TimeZone::UTC)),
+                        };
+                        // (posix picks the string twice: the tag is only a label, results are what is compared)
+                        match tz {
+                            Some(tz) => slots.push((tag, tz)),
+                            None => line.push_str("|ctor-err"),
+                        }
+                    }
+                    2 if !slots.is_empty() => {
+                        let j = r.below(slots.len() as u64) as usize;
+                        let c = slots[j].clone();
+                        slots.push(c);
+                    }
+                    3 if !slots.is_empty() => {
+                        let j = r.below(slots.len() as u64) as usize;
+                        drop(slots.swap_remove(j));
+                    }
+                    4 if !slots.is_empty() => {
+                        let j = r.below(slots.len() as u64) as usize;
+                        let ts = if r.below(3) == 0 { r.range(-60_000_000_000, 250_000_000_000) } else { r.range(-3_000_000_000, 5_000_000_000) };
+                        let ts = Timestamp::new(ts, 0).unwrap_or(Timestamp::UNIX_EPOCH);
+                        let tz = &slots[j].1;
+                        let info = tz.to_offset_info(ts);
+                        line.push_str(&format!("|q{}:{}:{:?}:{}:{:?}:{:?}", ts.as_second(), info.offset().seconds(), info.dst(), info.abbreviation(), tz.iana_name(), tz.to_fixed_offset().ok().map(|o| o.seconds())));
+                        let dt = tz.to_datetime(ts);
+                        line.push_str(&format!(":{}:{:?}", dt, tz.to_ambiguous_timestamp(dt).compatible().ok().map(|t| t.as_second())));
+                    }
+                    _ if slots.len() >= 2 => {
+                        let a = r.below(slots.len() as u64) as usize;
+                        let b = r.below(slots.len() as u64) as usize;
+                        line.push_str(&format!("|e{}{}{}", (slots[a].1 == slots[b].1) as u8, (slots[b].1 == slots[a].1) as u8, (slots[a].1.clone() == slots[a].1) as u8));
+                        line.push_str(&format!("{:?}", slots[a].1).len().to_string().as_str());
+                    }
+                    _ => {}
+                }
+            }
+            while let Some((_, tz)) = slots.pop() {
+                let ts = Timestamp::new(r.range(-60_000_000_000, 250_000_000_000), 0).unwrap_or(Timestamp::UNIX_EPOCH);
+                line.push_str(&format!("|d{}", tz.to_offset(ts).seconds()));
+                drop(tz);
+            }
+            evals += 1;
+            let _ = log.write_all(&fnv(&line).to_le_bytes());
+            if case.is_some() && i + 1 == n {
+                println!("{}", line);
+                return;
+            }
+        }
+        let _ = log.flush();
+        finish(&out, "c20", &flavour, seed, si, sn, evals, n, 0);
+        return;
+    }
     if args.get(1).map(|s| s.as_str()) == Some("c12") {
         // SignedDuration <-> float conversions (trunc / fract / round of the no-std float routines)
         for i in 0..n {
